@@ -60,10 +60,12 @@ func (r *InMemoryRepository) AddTask(
 		return def.Task{},
 			fmt.Errorf("%w. reason = %v", def.ErrInvalidTask, t.ReportInvalidity())
 	}
-	wrapped := sortabletask.WrapTask(t.Clone(), r.insertionOrderCount)
-
 	r.mu.Lock()
 	defer r.mu.Unlock()
+
+	// The insertion order must be drawn under the lock:
+	// it has to agree with the order in which tasks enter orderedMap.
+	wrapped := sortabletask.WrapTask(t.Clone(), r.insertionOrderCount)
 
 	r.heap.Push(wrapped)
 	r.orderedMap.Set(wrapped.Task.Id, wrapped)
